@@ -107,6 +107,7 @@ type Trace struct {
 	StepSeq         []int64 // event seq at the end of each top-level step
 	OutputErrs      int
 	FillCalls       map[int]int
+	TagCalls        map[int]int // renders per bar (the row tag decorator is called once per render)
 	Leaks           []G
 	LeakUndecided   bool
 	Detached        int64
@@ -369,6 +370,9 @@ func (r *runner) perturb(point string, occ int64) {
 // given: what the library itself shows for the bar, frame by frame.
 func (r *runner) tagDecor(idx int) decor.Decorator {
 	return decor.Any(func(s decor.Statistics) string {
+		r.mu.Lock()
+		r.tr.TagCalls[idx]++
+		r.mu.Unlock()
 		fl := "r"
 		if s.Completed && s.Aborted {
 			fl = "X"
@@ -610,7 +614,7 @@ func Run(sc *Scenario, opt Options) *Trace {
 		opt.HardMs = 30000
 	}
 	r := &runner{sc: sc, opt: opt, endSig: make(chan struct{}, 1), serveDone: make(chan struct{}), abort: make(chan struct{})}
-	r.tr = &Trace{Shutdowns: map[[2]int]int{}, EwmaSamples: map[[2]int][]EwmaSample{}, FillCalls: map[int]int{}, Added: make([]bool, len(sc.Bars))}
+	r.tr = &Trace{Shutdowns: map[[2]int]int{}, EwmaSamples: map[[2]int][]EwmaSample{}, FillCalls: map[int]int{}, TagCalls: map[int]int{}, Added: make([]bool, len(sc.Bars))}
 	r.bars = make([]*mpb.Bar, len(sc.Bars))
 	r.frameCap = int64(64 + 8*(len(sc.Bars)+sc.CountSteps()))
 	if sc.Cfg.Refresh == "autort" {
